@@ -578,7 +578,9 @@ def validate(calls, ops, opts, model_exe, res, keys_known, check_every_layout=Tr
             for ed in call['edits']:
                 structural(ed)
             if call['edits']:
-                gc_clean = not iters
+                # a compaction triggered from inside a read runs while that read still pins the old version (like an old
+                # iterator): its obsolete-file removal cannot delete the inputs yet
+                gc_clean = (not iters) and name not in ('get', 'has', 'scan', 'rscan', 'iter', 'istep', 'iopen')
 
             # ---- effects of the call itself
             if name in ('put', 'del', 'batch'):
